@@ -11,8 +11,10 @@ from .. import gen_valid, ser, ser_valid, valid_common as vc
 PROP = "C05"
 THEOREMS = [
     "C05_validate_total", "C05_validate_total_partial", "C05_validate_never_crashes", "C05_close_fuel_sufficient",
-    "C05_merge_unambiguous_pairwise", "C05_merge_unambiguous_within",
+    "C05_merge_unambiguous_pairwise", "C05_merge_unambiguous_within", "C05_merge_unambiguous_named", "C05_faithful_locations", "C05_lookups_agree",
+    "C05_merge_unambiguous_named_valid", "C05_merge_memo_sound",
     "C05_shape_static", "C05_progress_static",
+    "C05_runtime_reach_static", "C05_progress_runtime", "C05_shape_runtime", "C05_implements_ok_decidable",
 ]
 AXIOMS_OK = []
 RUN_MODULE = "Run.C05run"
@@ -25,7 +27,8 @@ LEVEL_NOTE = ("Theorems are about the Gallina model coq/Valid/*.v of py_gql/vali
               "the model is tied to the repository by running every rule class separately on generated schemas and "
               "documents on every run, and by evaluating the Coq shape checker on the data the real executor returns "
               "for documents the real validator accepts. The executor itself is not modelled here (property C04): the "
-              "progress/shape theorems are stated against a static `wrong` predicate over (schema, document).")
+              "progress/shape theorems are stated against static (`static_stuck`) and runtime-type (`runtime_stuck`, under the "
+              "schema hypothesis implements_ok) predicates over (schema, document), not against executor code.")
 RULE = ("per generated schema (anchor part + up to 8 random types of all kinds): valid-by-construction documents "
         "(fragments, inline fragments with/without type condition, aliases, same-key merges, @skip/@include with literals "
         "and variables, custom directives, variables with defaults, nested input objects, 1-3 operations of all kinds), "
